@@ -28,6 +28,7 @@ pub fn child_main(args: &[String]) -> i32 {
         Some("estimate") => crate::props::c18::estimate_child(&args[1..]),
         Some("extract") => extract(&args[1..]),
         Some("create") => create(&args[1..]),
+        Some("pipeline") => crate::pipecheck::child_main(&args[1..]),
         _ => {
             eprintln!("unknown child {:?}", args.first());
             2
